@@ -84,7 +84,10 @@ func vc09Cmp(now, then vc09T, d, slack int64) (mayLE, mayGT bool) {
 // dropped or not; a subnet whose over-limit hits reached the backoff count
 // while all of them are at most min(period, duration) old is in backoff; after
 // period+duration without a hit it is not; a subnet in backoff is dropped and
-// nothing is counted.  What the statement leaves open and is therefore allowed
+// such a query is not a countable event, neither for the window nor for the
+// hit count (doc/configuration.md: requests "aren't allowed from client's
+// subnet until backoff_duration ends", so once it has ended the subnet is
+// served again however hard it retried meanwhile).  What the statement leaves open and is therefore allowed
 // either way: whether hits older than that still count / backoff still lasts
 // until period+duration after the last hit; whether the subnet's window is
 // forgotten once the window object is older than the backoff period (the code
@@ -331,6 +334,19 @@ func vc09SlidingCase(t *rapid.T, st *vstat.Stats, run vc09SlideRun) {
 		persistent = nil
 	}
 
+	// A third of the cases start with a constructed flood: one subnet enters
+	// backoff and keeps retrying above the limit until backoff has certainly
+	// ended.  Short period/duration keep that history short.
+	flood := rapid.IntRange(0, 2).Draw(t, "flood") == 0
+	if flood {
+		persistent = nil
+		c.Period = time.Duration(rapid.SampledFrom([]int{20, 30}).Draw(t, "floodPeriod")) * u
+		c.Duration = c.Period
+		if rapid.IntRange(0, 3).Draw(t, "floodPDDiffer") == 0 {
+			c.Duration = time.Duration(rapid.SampledFrom([]int{20, 30, 50}).Draw(t, "floodDuration")) * u
+		}
+	}
+
 	l := c.build(NewDynamicAllowlist(persistent, nil))
 	sets := map[string]*vc09KeySet{}
 	limits := func(ip netip.Addr) (key string, lm *vc09Limits) {
@@ -347,6 +363,11 @@ func vc09SlidingCase(t *rapid.T, st *vstat.Stats, run vc09SlideRun) {
 
 	classes := map[string]bool{}
 	dropped := map[string]bool{}
+	// backoffDrops: per subnet, the instants of queries that were dropped while
+	// every allowed state of the subnet was in backoff.  By the documentation
+	// ("requests aren't allowed from client's subnet until backoff_duration
+	// ends") they are not countable events.
+	backoffDrops := map[string][]vc09T{}
 	nontrivial := false
 	p6 := rapid.SampledFrom([]int{0, 0, 30, 100}).Draw(t, "p6")
 	jit := func(label string) time.Duration {
@@ -358,61 +379,32 @@ func vc09SlidingCase(t *rapid.T, st *vstat.Stats, run vc09SlideRun) {
 		budget = 2500 * time.Millisecond
 	}
 
-	steps := rapid.IntRange(6, 45).Draw(t, "steps")
-	for i := 0; i < steps; i++ {
-		if rapid.IntRange(0, 9).Draw(t, "op") < 3 {
-			ivl := c.Ivl4
-			if p6 == 100 || (p6 > 0 && rapid.Bool().Draw(t, "gapFam")) {
-				ivl = c.Ivl6
-			}
-
-			var d time.Duration
-			switch rapid.IntRange(0, 9).Draw(t, "gap") {
-			case 0:
-				d = jit("j")
-			case 1:
-				d = ivl/2 + jit("j")
-			case 2, 3:
-				d = ivl - jit("j")
-			case 4, 5:
-				d = ivl + jit("j")
-			case 6:
-				d = min(c.Period, c.Duration) - ivl - jit("j")
-			case 7:
-				d = c.Period + jit("j")
-			case 8:
-				d = c.Period + c.Duration + ivl + jit("j")
-			case 9:
-				d = time.Duration(rapid.Int64Range(0, int64(c.Period+c.Duration)).Draw(t, "gapUniform"))
-			}
-
-			if d < 0 {
-				d = 0
-			}
-
-			if run.realtime {
-				if d > budget {
-					d = budget
-				}
-
-				budget -= d
-				time.Sleep(d)
-			} else {
-				slack += vc09Rewind(l, d)
-				offset += int64(d)
-			}
-
-			lines = append(lines, fmt.Sprintf("%2d +%s", i, d))
-			if d > c.Period {
-				classes["gap-over-period"] = true
-			}
-
-			continue
+	advance := func(label string, d time.Duration) {
+		if d < 0 {
+			d = 0
 		}
 
-		ip := vc09DrawAddr(t, c.KL4, c.KL6, p6)
-		qt := vc09DrawQType(t)
-		size := vc09DrawRespSize(t, c.Est)
+		if run.realtime {
+			if d > budget {
+				d = budget
+			}
+
+			budget -= d
+			time.Sleep(d)
+		} else {
+			slack += vc09Rewind(l, d)
+			offset += int64(d)
+		}
+
+		lines = append(lines, fmt.Sprintf("%s +%s", label, d))
+		if d > c.Period {
+			classes["gap-over-period"] = true
+		}
+	}
+
+	// query sends one query and judges the verdict; abort means that the case
+	// cannot be judged any further.
+	query := func(label string, ip netip.Addr, qt uint16, size int) (abort bool) {
 		req := vc09Req(qt)
 		key, lm := limits(ip)
 		ks := sets[key]
@@ -425,7 +417,7 @@ func vc09SlidingCase(t *rapid.T, st *vstat.Stats, run vc09SlideRun) {
 		drop, allow, err := l.IsRateLimited(ctx, req, ip)
 		a := time.Now().UnixNano()
 		T := vc09T{Lo: b + offset, Hi: a + offset}
-		lines = append(lines, fmt.Sprintf("%2d query %s (subnet %s) qtype=%d respsize=%d at [%d..%d] -> drop=%t allowlisted=%t", i, ip, key, qt, size, T.Lo, T.Hi, drop, allow))
+		lines = append(lines, fmt.Sprintf("%s query %s (subnet %s) qtype=%d respsize=%d at [%d..%d] -> drop=%t allowlisted=%t", label, ip, key, qt, size, T.Lo, T.Hi, drop, allow))
 		if err != nil {
 			t.Fatalf("unexpected error %v\n%s", err, hist())
 		}
@@ -434,7 +426,7 @@ func vc09SlidingCase(t *rapid.T, st *vstat.Stats, run vc09SlideRun) {
 			// The wall clock stepped backwards: nothing can be said.
 			st.Class("wall-clock-stepped")
 
-			return
+			return true
 		}
 
 		switch {
@@ -444,16 +436,21 @@ func vc09SlidingCase(t *rapid.T, st *vstat.Stats, run vc09SlideRun) {
 				t.Fatalf("ANY query not refused (drop=%t allowlisted=%t)\n%s", drop, allow, hist())
 			}
 
-			continue
+			return false
 		case vc09InPrefixes(ip, persistent):
 			classes["allowlisted-pass"] = true
 			if drop || !allow {
 				t.Fatalf("allowlisted client %s: drop=%t allowlisted=%t\n%s", ip, drop, allow, hist())
 			}
 
-			continue
+			return false
 		case allow:
 			t.Fatalf("client %s outside the allowlist reported as allowlisted\n%s", ip, hist())
+		}
+
+		wasInBackoff := !ks.lost && len(ks.states) > 0
+		for _, s := range ks.states {
+			wasInBackoff = wasInBackoff && s.HasHit && s.Hits >= lm.count
 		}
 
 		ok, allowed := ks.apply(T, lm, slack, &drop)
@@ -482,6 +479,11 @@ func vc09SlidingCase(t *rapid.T, st *vstat.Stats, run vc09SlideRun) {
 
 		if drop {
 			dropped[key] = true
+			if wasInBackoff {
+				classes["dropped-in-backoff"] = true
+				backoffDrops[key] = append(backoffDrops[key], T)
+			}
+
 			for _, s := range ks.states {
 				if s.HasHit && s.Hits >= lm.count {
 					classes["backoff-entered"] = true
@@ -491,6 +493,23 @@ func vc09SlidingCase(t *rapid.T, st *vstat.Stats, run vc09SlideRun) {
 			if dropped[key] {
 				nontrivial = true
 				classes["dropped-then-pass-same-subnet"] = true
+			}
+
+			// Served although at least limit queries of the subnet were dropped
+			// by backoff within the interval before: those do not count.
+			n := 0
+			for _, bd := range backoffDrops[key] {
+				if T.Hi-bd.Lo+slack <= lm.ivl {
+					n++
+				}
+			}
+
+			if n > 0 {
+				classes["served-after-backoff-with-backoff-drops-in-window"] = true
+			}
+
+			if n >= lm.lim {
+				classes["served-after-backoff-with-backoff-drops-filling-window"] = true
 			}
 
 			for dk := range dropped {
@@ -519,6 +538,82 @@ func vc09SlidingCase(t *rapid.T, st *vstat.Stats, run vc09SlideRun) {
 				classes["large-response-counted"] = true
 				lines = append(lines, fmt.Sprintf("   response of %d bytes counted as %d more events at [%d..%d]", resp.Len(), extra, T.Lo, T.Hi))
 			}
+		}
+
+		return false
+	}
+
+	if flood {
+		classes["constructed-flood"] = true
+		ip := vc09DrawAddr(t, c.KL4, c.KL6, p6)
+		_, lm := limits(ip)
+		ivl := time.Duration(lm.ivl)
+		// Enter backoff: limit queries pass, count more are over-limit hits, one
+		// more is dropped by backoff.
+		for j := 0; j < lm.lim+lm.count+1; j++ {
+			if query("f0", ip, dns.TypeA, 0) {
+				return
+			}
+		}
+
+		// Keep retrying above the limit, in bursts less than an interval apart,
+		// until period+duration (plus two intervals) have passed since backoff
+		// was entered.  Whenever backoff ends, the subnet must be served again
+		// although the bursts dropped by backoff lie within the interval.
+		var elapsed time.Duration
+		for it := 1; elapsed <= c.Period+c.Duration+2*ivl && it < 60; it++ {
+			g := ivl/2 + ivl*time.Duration(rapid.IntRange(0, 4).Draw(t, "floodGap"))/10
+			advance(fmt.Sprintf("f%d", it), g)
+			elapsed += g
+			burst := lm.lim + 1 + rapid.IntRange(0, 1).Draw(t, "floodBurst")
+			for j := 0; j < burst; j++ {
+				if query(fmt.Sprintf("f%d", it), ip, dns.TypeA, 0) {
+					return
+				}
+			}
+		}
+	}
+
+	steps := rapid.IntRange(6, 45).Draw(t, "steps")
+	if flood {
+		steps = rapid.IntRange(0, 10).Draw(t, "stepsAfterFlood")
+	}
+
+	for i := 0; i < steps; i++ {
+		label := fmt.Sprintf("%2d", i)
+		if rapid.IntRange(0, 9).Draw(t, "op") < 3 {
+			ivl := c.Ivl4
+			if p6 == 100 || (p6 > 0 && rapid.Bool().Draw(t, "gapFam")) {
+				ivl = c.Ivl6
+			}
+
+			var d time.Duration
+			switch rapid.IntRange(0, 9).Draw(t, "gap") {
+			case 0:
+				d = jit("j")
+			case 1:
+				d = ivl/2 + jit("j")
+			case 2, 3:
+				d = ivl - jit("j")
+			case 4, 5:
+				d = ivl + jit("j")
+			case 6:
+				d = min(c.Period, c.Duration) - ivl - jit("j")
+			case 7:
+				d = c.Period + jit("j")
+			case 8:
+				d = c.Period + c.Duration + ivl + jit("j")
+			case 9:
+				d = time.Duration(rapid.Int64Range(0, int64(c.Period+c.Duration)).Draw(t, "gapUniform"))
+			}
+
+			advance(label, d)
+
+			continue
+		}
+
+		if query(label, vc09DrawAddr(t, c.KL4, c.KL6, p6), vc09DrawQType(t), vc09DrawRespSize(t, c.Est)) {
+			return
 		}
 	}
 
@@ -550,8 +645,8 @@ func vc09SlidingCase(t *rapid.T, st *vstat.Stats, run vc09SlideRun) {
 
 func TestVerifC09BackoffSliding(t *testing.T) {
 	st := vstat.New("C09", "ratelimit.backoff.sliding",
-		"rapid histories (query with optional counted response | clock advance by a gap around interval/period/duration boundaries) against Backoff with the harness owning the clock (every stored instant rewound); reference = set of per-subnet states allowed by the statement, evaluated with interval arithmetic on measured call instants; non-trivial = a query of a subnet was dropped and a later query of the same subnet passed (window slid or backoff ended), distinct by (config, history)",
-		"dropped-then-pass-same-subnet", "backoff-entered", "other-subnet-passes-during-flood", "large-response-counted", "gap-over-period", "v6", "allowlisted-pass", "any-refused")
+		"rapid histories (query with optional counted response | clock advance by a gap around interval/period/duration boundaries; a third of the cases start with a constructed flood: one subnet enters backoff and keeps retrying above the limit in bursts less than an interval apart until period+duration have certainly passed) against Backoff with the harness owning the clock (every stored instant rewound); reference = set of per-subnet states allowed by the statement, evaluated with interval arithmetic on measured call instants; non-trivial = a query of a subnet was dropped and a later query of the same subnet passed (window slid or backoff ended), distinct by (config, history)",
+		"dropped-then-pass-same-subnet", "backoff-entered", "dropped-in-backoff", "served-after-backoff-with-backoff-drops-filling-window", "other-subnet-passes-during-flood", "large-response-counted", "gap-over-period", "v6", "allowlisted-pass", "any-refused")
 	st.Finish(t)
 
 	rapid.Check(t, func(t *rapid.T) {
@@ -562,7 +657,7 @@ func TestVerifC09BackoffSliding(t *testing.T) {
 func TestVerifC09BackoffRealtime(t *testing.T) {
 	st := vstat.New("C09", "ratelimit.backoff.realtime",
 		"as ratelimit.backoff.sliding but with real sleeps (intervals 100-300 ms, period/duration 0.2-1 s, at most 2.5 s of sleep per case); the reference only judges what is unambiguous given the measured instants",
-		"dropped-then-pass-same-subnet", "backoff-entered")
+		"dropped-then-pass-same-subnet", "backoff-entered", "served-after-backoff-with-backoff-drops-filling-window")
 	st.Finish(t)
 
 	rapid.Check(t, func(t *rapid.T) {
